@@ -165,6 +165,13 @@ Definition reg_remove (r : registry) (h : Z) : option value * registry :=
   | None => (amap_get h (overflow r), {| single := None; overflow := amap_remove h (overflow r) |})
   end.
 
+(* what the registry holds under handle number [h] *)
+Definition reg_get (r : registry) (h : Z) : option value :=
+  match single r with
+  | Some (h', v') => if h' =? h then Some v' else amap_get h (overflow r)
+  | None => amap_get h (overflow r)
+  end.
+
 Definition u32_wrap (z : Z) : Z := z mod 2 ^ 32.
 
 (* Value::as_usize on the value the handle number was transformed into *)
@@ -219,6 +226,10 @@ Inductive node :=
 | NThread (x : node)            (* the conversion runs on a fresh thread; its result is serialised here *)
 | NFail                         (* Err(S::Error::custom(..)) *)
 | NPanic
+| NLeak (v : value)             (* a Value handed to a foreign serializer (serde_json::to_string) during the conversion:
+                                   impl Serialize for Value registers a handle that nobody redeems; then serialize_unit *)
+| NFlatten (v : value)          (* struct with #[serde(flatten)] on a Value field: handle registered, then serde's
+                                   FlatMapSerializer refuses the tuple struct: error *)
 with nodes := NNil | NCons (x : node) (r : nodes).
 
 (* thread-local state: INTERNAL_SERIALIZATION, LAST_VALUE_HANDLE, VALUE_HANDLES *)
@@ -234,6 +245,13 @@ Definition ser_value (v : value) (st : cstate) : value * cstate :=
   if flag st then
     let '(v', (h, r2)) := embed (last st) (reg st) v in (v', {| flag := flag st; last := h; reg := r2 |})
   else (lossy v, st).
+
+(* impl Serialize for Value with the flag set, received by a serializer that is NOT ValueSerializer:
+   the handle is registered and stays in the registry *)
+Definition leak (v : value) (st : cstate) : cstate :=
+  if flag st then
+    let h := u32_wrap (last st + 1) in {| flag := flag st; last := h; reg := reg_insert (reg st) h v |}
+  else st.
 
 Definition field_key (i : Z) : value := VStr false [102; 48 + i].    (* "f0" .. "f9" *)
 Definition variant_key : value := VStr false [86].                  (* "V" *)
@@ -295,6 +313,8 @@ Fixpoint ser_node (x : node) (st : cstate) {struct x} : res value * cstate :=
       end
   | NFail => (RErr, st)
   | NPanic => (RPanic, st)
+  | NLeak v => (ROk VNone, leak v st)
+  | NFlatten v => (RErr, leak v st)
   end
 (* the elements / fields of a compound serializer, each through transform, left to right *)
 with ser_nodes (l : nodes) (st : cstate) {struct l} : res (list value) * cstate :=
@@ -556,3 +576,31 @@ Definition json_quote (s : str) : str := 34 :: flat_map json_escape_char s ++ [3
 
 (* {{ s|tojson }} for a string value *)
 Definition tojson_str (s : str) : str := json_postprocess (json_quote s).
+
+(* ---------------------------------------------------------------------------------- *)
+(* impl Serialize for Value, Seq/Iterable arm, received by serde_json                   *)
+(* ---------------------------------------------------------------------------------- *)
+(* serde_json::Serializer::serialize_seq(len) + SerializeSeq for Compound with a formatter whose
+   element separator is [sep] ("," compact, ", " JinjaJsonFormatter): "[" is written at once; when
+   len = Some 0 the "]" follows immediately and the state is Empty, otherwise First; every element
+   is preceded by the separator unless the state is First; end() writes "]" unless Empty. *)
+Inductive jstate := JEmpty | JFirst | JRest.
+
+Fixpoint json_elems (sep : str) (st : jstate) (elems : list str) : str * jstate :=
+  match elems with
+  | [] => ([], st)
+  | e :: r =>
+      let pre := match st with JFirst => [] | _ => sep end in
+      let '(rest, st') := json_elems sep JRest r in
+      (pre ++ e ++ rest, st')
+  end.
+
+Definition json_array (sep : str) (hint : option Z) (elems : list str) : str :=
+  let empty := match hint with Some 0 => true | _ => false end in
+  let '(body, st) := json_elems sep (if empty then JEmpty else JFirst) elems in
+  91 :: (if empty then [93] else []) ++ body ++ match st with JEmpty => [] | _ => [93] end.
+
+(* value/mod.rs: serializer.serialize_seq(o.enumerator_len()): the exact number of items of a sized
+   object, None for an iterable that does not know its length *)
+Definition seq_len_hint (sized : bool) (elems : list str) : option Z :=
+  if sized then Some (lenZ elems) else None.
